@@ -8,7 +8,7 @@
 (* Every law is a predicate over `inp` and `r`; Radix is an independent    *)
 (* model of integer formatting (long division on limbs).                   *)
 (***************************************************************************)
-EXTENDS Codecs, Calendar, Json, IOUtils
+EXTENDS Codecs, Calendar, Proto, Json, IOUtils
 
 Rec == ndJsonDeserialize(IOEnv.TRACE)
 VARIABLES l, viols, cnt
@@ -233,6 +233,7 @@ Law(r, i, name) ==
     [] name = "merge" -> Ok(r.out) /\ DOMAIN V(r.out).m = (DOMAIN i.o.m) \cup (DOMAIN i.o2.m)
                          /\ \A f \in DOMAIN V(r.out).m : Plain(V(r.out).m[f]) = Plain(IF f \in DOMAIN i.o2.m THEN i.o2.m[f] ELSE i.o.m[f])
     \* C22 C23 C21
+    [] name = "proto_roundtrip" -> Ok(r.enc) /\ Ok(r.dec) /\ V(r.dec).t = "obj" /\ SameMsg(V(r.dec), i.x, i.type)
     [] name = "conv" -> ConvLaw(r, i)
     [] name = "numeric" -> NumLaw(r, i)
     [] name = "codec" -> CodecLaw(r, i)
@@ -306,7 +307,7 @@ GrokLaw(r, i) ==
 
 Prop(name) == IF name = "dd_roundtrip" THEN "C30" ELSE IF name \in {"dd_compose", "dd_range", "dd_leaf"} THEN "C31"
               ELSE IF name = "grok" THEN "C32"
-              ELSE IF name = "conv" THEN "C35" ELSE IF name = "numeric" THEN "C29" ELSE IF name = "codec" THEN "C22" ELSE IF name \in {"cipher", "ip_cipher"} THEN "C23" ELSE IF name = "json_roundtrip" THEN "C21"
+              ELSE IF name = "proto_roundtrip" THEN "C26" ELSE IF name = "conv" THEN "C35" ELSE IF name = "numeric" THEN "C29" ELSE IF name = "codec" THEN "C22" ELSE IF name \in {"cipher", "ip_cipher"} THEN "C23" ELSE IF name = "json_roundtrip" THEN "C21"
               ELSE IF name \in {"kv_roundtrip", "csv_roundtrip"} THEN "C24"
               ELSE IF name \in {"inverse", "inverse_obj", "format_int"} THEN "C25" ELSE "C28"
 
@@ -323,7 +324,7 @@ Where(name, fn, i) ==
     [] name \in {"dd_roundtrip", "dd_range", "dd_leaf", "grok"} -> i.shape
     [] name = "json_roundtrip" -> fn \o ":" \o (IF JsonOnlyTwoUlp(Ev.r, i) THEN "float-off-by-two-ulp" ELSE i.shape)
     [] name = "numeric" -> fn \o ":" \o (IF i.kind = "round_fp" /\ RoundFpRelaxed(Ev.r, i) THEN "precision>0:within-two-ulp-of-the-statement" ELSE i.shape)
-    [] name \in {"codec", "cipher", "ip_cipher", "conv"} -> fn \o ":" \o i.shape
+    [] name \in {"codec", "cipher", "ip_cipher", "conv", "proto_roundtrip"} -> fn \o ":" \o i.shape
     [] OTHER -> fn
 
 Panics(r) == \E n \in DOMAIN r : r[n].k = "panic"
@@ -346,7 +347,7 @@ T_Lost ==
   /\ cnt' = Bump(cnt, "laws")
   /\ l' = l + 1
 
-Init == l = 1 /\ viols = <<>> /\ cnt = [c \in {"laws", "C21", "C22", "C23", "C24", "C25", "C28", "C29", "C30", "C31", "C32", "C35"} |-> 0]
+Init == l = 1 /\ viols = <<>> /\ cnt = [c \in {"laws", "C21", "C22", "C23", "C24", "C25", "C26", "C28", "C29", "C30", "C31", "C32", "C35"} |-> 0]
 Next == T_Law \/ T_Lost
 TraceSpec == Init /\ [][Next]_lvars
 Report == (l = Len(Rec) + 1) =>
